@@ -70,6 +70,7 @@ def check(ctx):
             ctx.rule_instances['C17.A4'].add(p_)
     ctx.extra['payload_sizes_seen'] = sorted(seen_sizes)
     ctx.require(len(seen_sizes) >= 6, 'C17.A2: the witness family must exercise at least 6 distinct payload sizes (got %s)' % sorted(seen_sizes))
+    witness.check_static_unit(ctx, 'C17.W', os.path.join(extract.VERIF, 'witness', 's_meta.cpp'), 'RemoveCvRef / MaxSizeOf', tag='C17')
     ctx.require_min('C17.A1', 1)
     ctx.require_min('C17.A2', 2)
     ctx.require_min('C17.A3', 6)
